@@ -242,6 +242,50 @@ def run(ctx):
         if len(y) != nmax:
             ctx.fail('not_all_valid_samples_returned', inp, impl=len(y), model=nmax)
 
+    # ---- delays that the code itself computes as EXACT half-sample ties (and one ulp below a half): numpy's round is to nearest, ties to
+    # even - 0.5 -> 0, 1.5 -> 2, 2.5 -> 2, -1.5 -> -2, -3.5 -> -4; 0.49999999999999994 -> 0.  The sample rate is tuned until the code's own
+    # sample_delay of the middle channel IS the target double; the other channels' delays then are what they are (regenerated near ties).
+    for c in range(24 if ctx.tier == 'quick' else 240):
+        target = rng.choice([0.5, 1.5, 2.5, 4.5, -0.5, -1.5, -3.5, 6.5, math.nextafter(0.5, 0.0), -math.nextafter(0.5, 0.0)])
+        Ln = 64
+        data = (np.arange(Ln, dtype=np.float64).reshape(Ln, 1) * 1000 + np.arange(3, dtype=np.float64).reshape(1, 3))
+        cf, bw = rng.choice([400.0, 800.0, 1400.0]) * u.MHz, rng.choice([1.0, 4.0]) * u.MHz
+        dm = pb.DM(rng.choice([3.0, 10.0, 30.0]) * (1 if target > 0 else -1))
+        ref = cf + 5 * bw                                      # above the band: every channel is delayed the same way as the DM's sign
+        z0 = pb.IntensitySignal(data, sample_rate=1 * u.kHz, center_freq=cf, chan_bw=bw, start_time=Time('2021-03-04T05:06:07', precision=9))
+        td = dm.time_delay(z0.channel_freqs[1], ref)
+        rate = None
+        r0 = target / td.to_value(u.s)
+        for k in range(-40, 41):
+            r = r0
+            for _ in range(abs(k)):
+                r = math.nextafter(r, math.inf if k > 0 else -math.inf)
+            if r > 0 and float(dm.sample_delay(z0.channel_freqs[1], ref, r * u.Hz)) == target:
+                rate = r * u.Hz
+                break
+        if rate is None:
+            ctx.count('tie_not_reachable')
+            continue
+        z = pb.IntensitySignal(data, sample_rate=rate, center_freq=cf, chan_bw=bw, start_time=z0.start_time)
+        ds = [float(d) for d in dm.sample_delay(z.channel_freqs, ref, rate)]
+        if any(abs((d - math.floor(d)) - 0.5) < 1e-6 for i, d in enumerate(ds) if i != 1):
+            continue
+        want = [int(np.round(d)) if i != 1 else int(rhe(Fraction(target))) for i, d in enumerate(ds)]
+        inp = dict(op='incoherent_tie', target=target, dm=float(dm.value), cf=str(cf), bw=str(bw), rate=float(rate.value), delays=ds)
+        ctx.seen(inp); ctx.count('incoherent_tie')
+        try:
+            y = pb.incoherent_dedispersion(z, dm, ref_freq=ref)
+        except Exception as e:
+            ctx.fail('valid_dedispersion_raised', inp, impl=repr(e))
+            continue
+        if len(y) == 0:
+            continue
+        yd = np.asarray(y.data)
+        got = [int(round(float(yd[0, i] - i))) // 1000 for i in range(3)]          # source sample of output sample 0, per channel
+        cb = -min(0, want[0], want[-1])
+        if got != [w + cb for w in want]:
+            ctx.fail('tie_not_rounded_to_nearest_even', inp, impl=got, model=[w + cb for w in want])
+
     res = ctx.run_cases(HEADER, items, shard=max(60, len(items) // 32 + 1))
     if res is None:
         return
